@@ -34,7 +34,9 @@ Catalogue == <<
   Fn("f_sel", <<"p">>, <<"p: P">>, Op2("add", Op2("mul", Fld(Var("p"), "x"), Lit(10)), Fld(Var("p"), "y")), << >>),
   Let("w_h", Var("f_inc")),
   Fn("f_outer", <<"x">>, <<"x">>, Op2("mul", Call("f_inc", <<X>>), Lit(2)), << >>),
-  Fn("f_shadow", <<"w_b">>, <<"w_b">>, Op2("add", Var("w_b"), Var("w_a")), << >>)
+  Fn("f_shadow", <<"w_b">>, <<"w_b">>, Op2("add", Var("w_b"), Var("w_a")), << >>),
+  \* a function-valued parameter named like a global function: inside the body the name is the parameter (innermost binding)
+  Fn("f_app", <<"f_inc", "x">>, <<"f_inc: Fn[(Scalar) -> Scalar]", "x: Scalar">>, Op2("add", Op2("mul", Call("f_inc", <<X>>), Lit(1000)), Pipe(X, "f_inc")), << >>)
 >>
 
 Variants == << << >>,
@@ -47,7 +49,7 @@ PVal(a, b) == Mk("P", << [f |-> "y", e |-> b], [f |-> "x", e |-> a] >>)
 I1(a) ==   \* integer expressions built around atom a
      { a, Call("f_inc", <<a>>), Call("f_wh", <<a>>), Pipe(a, "f_inc"), Pipe(a, "f_outer"), Call("f_outer", <<a>>),
        Call("f_twice", <<Var("f_inc"), a>>), Call("f_twice", <<Var("w_h"), a>>), Call("w_h", <<a>>), CallV(Var("w_h"), <<a>>),
-       Call("f_shadow", <<a>>), Call("f_cap", << >>), Neg(a), Call("f_fact", <<Lit(3)>>), Call("f_fact", <<Op2("sub", a, Lit(1))>>) }
+       Call("f_shadow", <<a>>), Call("f_cap", << >>), Neg(a), Call("f_app", <<Var("f_outer"), a>>), Call("f_app", <<Var("w_h"), a>>), Call("f_fact", <<Lit(3)>>), Call("f_fact", <<Op2("sub", a, Lit(1))>>) }
   \cup { Op2(op, a, b) : op \in {"add", "sub", "mul"}, b \in A0 }
   \cup { Call("f_sub", <<a, b>>) : b \in A0 } \cup { Call("f_sub", <<b, a>>) : b \in A0 }
   \cup { Fld(Call("f_mkp", <<a, b>>), f) : b \in {Lit(7), Var("w_b")}, f \in {"x", "y"} }
